@@ -41,28 +41,9 @@ Definition observe (s : shared) (p : pc) : list Z :=
   | LenLoad => [1; EvLoadI64; LocLen; 0; 0; len s]
   end.
 
-Definition dec_op (z : Z) : op := if z =? 0 then OpPop else if z <? 0 then OpLen else OpPush z.
+Definition dec_op (z : Z) : op := if z =? 0 then OpPop else if z =? -1 then OpLen else if z <? 0 then OpPop else OpPush z.
 Fixpoint updl {A} (l : list A) (i : nat) (x : A) : list A :=
   match l, i with [], _ => [] | _ :: t, O => x :: t | h :: t, S j => h :: updl t j x end.
-
-Fixpoint go (c : config) (progs : list (list Z)) (sched : list Z) (acc : list Z) : config * list Z :=
-  match sched with
-  | [] => (c, acc)
-  | t :: rest =>
-      let i := Z.to_nat t in
-      match nth_error (ths c) i with
-      | None => go c progs rest acc
-      | Some p =>
-          let prog := nth i progs [] in
-          match p, prog with
-          | Idle, [] => go c progs rest acc
-          | _, _ =>
-              let o := match prog with x :: _ => dec_op x | [] => OpPop end in
-              let progs' := match p with Idle => updl progs i (List.tl prog) | _ => progs end in
-              go (step c (i, o)) progs' rest (rev_append (t :: observe (sh c) p) acc)
-          end
-      end
-  end.
 
 Definition enc_res (r : res) : list Z :=
   match r with
@@ -73,8 +54,60 @@ Definition enc_res (r : res) : list Z :=
   | RPopBusy => [2; 0; 0]
   | RLen z _ => [3; z]
   end.
-Definition results_of (h : list (nat * res)) (i : nat) : list Z :=
-  flat_map (fun e => if Nat.eqb (fst e) i then enc_res (snd e) else []) h.
+Definition res_success (r : res) : bool := match r with RPop _ _ => true | RPush => true | _ => false end.
+
+(* PopWait(-1) is the loop "Pop; if it failed, runtime.Gosched(); Pop again" (code -10); PopWait(d), d >= 0, with the 10 ms
+   ticker is "Pop; then one more Pop per tick until the deadline has passed", at most n further tries (code -100 - n;
+   the clock is virtual under the shim, so n is exact).  They are run as such on top of the step model. *)
+Definition is_wait (x : Z) : bool := (x =? -10) || (x <=? -100).
+Definition tries_of (x : Z) : Z := if x <=? -100 then - x - 100 else -1.
+Record rthread := { r_prog : list Z; r_wait : Z; r_left : Z; r_yield : bool; r_res : list Z }.
+
+Fixpoint go (c : config) (rts : list rthread) (sched : list Z) (acc : list Z) : config * list rthread * list Z :=
+  match sched with
+  | [] => (c, rts, acc)
+  | t :: rest =>
+      let i := Z.to_nat t in
+      match nth_error (ths c) i, nth_error rts i with
+      | Some p, Some rt =>
+          let idle := match p with Idle => true | _ => false end in
+          if idle && r_yield rt then
+            go c (updl rts i {| r_prog := r_prog rt; r_wait := r_wait rt; r_left := r_left rt; r_yield := false; r_res := r_res rt |}) rest
+               (rev_append [t; 1; EvGosched; 0; 0; 0; 0] acc)
+          else
+          let start :=
+            if negb idle then Some (OpPop, rt)
+            else if negb (r_wait rt =? 0) then Some (OpPop, rt)
+            else match r_prog rt with
+                 | [] => None
+                 | x :: more =>
+                     if is_wait x then Some (OpPop, {| r_prog := more; r_wait := x; r_left := tries_of x; r_yield := false; r_res := r_res rt |})
+                     else Some (dec_op x, {| r_prog := more; r_wait := 0; r_left := 0; r_yield := false; r_res := r_res rt |})
+                 end in
+          match start with
+          | None => go c rts rest acc
+          | Some (o, rt1) =>
+              let ev := observe (sh c) p in
+              let c' := step c (i, o) in
+              let returned := negb idle && match nth_error (ths c') i with Some Idle => true | _ => false end
+                              && negb (Nat.eqb (length (hist c')) (length (hist c))) in
+              let rt2 :=
+                if returned then
+                  match last (map (fun e => Some (snd e)) (hist c')) None with
+                  | Some r =>
+                      if (r_wait rt1 =? 0) || res_success r || (r_left rt1 =? 0)
+                      then {| r_prog := r_prog rt1; r_wait := 0; r_left := 0; r_yield := false; r_res := rev_append (enc_res r) (r_res rt1) |}
+                      else if r_left rt1 <? 0
+                      then {| r_prog := r_prog rt1; r_wait := r_wait rt1; r_left := -1; r_yield := true; r_res := r_res rt1 |}
+                      else {| r_prog := r_prog rt1; r_wait := r_wait rt1; r_left := r_left rt1 - 1; r_yield := false; r_res := r_res rt1 |}
+                  | None => rt1
+                  end
+                else rt1 in
+              go c' (updl rts i rt2) rest (rev_append (t :: ev) acc)
+          end
+      | _, _ => go c rts rest acc
+      end
+  end.
 
 Definition stored (s : shared) : list Z :=
   map (fun o => match o with Some v => v | None => 0 end) (firstn (tail s - head s) (skipn (S (head s)) (vals s))).
@@ -90,8 +123,9 @@ Definition run_case (args : list Z) : list Z :=
       let n := Z.to_nat nt in
       let (progs, r1) := get_lists n r in
       let (sched, _) := get_list r1 in
-      let (c, acc) := go (seq_state (Z.to_nat npre) n) progs (sched ++ completion n progs) [] in
-      rev' acc ++ [-1] ++ flat_map (fun i => put_list (results_of (hist c) i)) (seq 0 n)
+      let rts := map (fun pr => {| r_prog := pr; r_wait := 0; r_left := 0; r_yield := false; r_res := [] |}) progs in
+      let '(c, rts', acc) := go (seq_state (Z.to_nat npre) n) rts (sched ++ completion n progs) [] in
+      rev' acc ++ [-1] ++ flat_map (fun rt => put_list (rev' (r_res rt))) rts'
       ++ [-2; len (sh c)] ++ put_list (stored (sh c))
   | _ => [BADCASE]
   end.
@@ -99,7 +133,8 @@ Definition run_case (args : list Z) : list Z :=
 (* ---- history judge (specification side): unbounded FIFO, LPs = StorePtr on tail (push), successful CAS on head (pop),
         the tail load that equals the loaded head (empty pop); Len results: never negative, never below the number of
         poppable values at the instant of the load ---- *)
-Record oprec := { o_kind : Z (* 1 push 2 pop 3 len *); o_val : Z; o_lp : bool; o_got : Z; o_excuse : bool; o_lenmin : Z }.
+Record oprec := { o_kind : Z (* 1 push 2 pop 3 len *); o_val : Z; o_lp : bool; o_got : Z; o_excuse : bool; o_lenmin : Z;
+                  o_wait : bool; o_left : Z (* PopWait: further tries it may still make, -1 = unbounded *) }.
 Record tstate := { t_next : nat; t_cur : option oprec; t_done : list oprec; t_lasthead : Z }.
 Record jstate := { j_q : list Z; j_ths : list tstate; j_ok : bool }.
 Definition bad (s : jstate) : jstate := {| j_q := j_q s; j_ths := j_ths s; j_ok := false |}.
@@ -107,7 +142,8 @@ Definition in_flight (t : tstate) : bool := match t_cur t with Some _ => true | 
 Definition with_cur (t : tstate) (r : option oprec) : tstate :=
   {| t_next := t_next t; t_cur := r; t_done := t_done t; t_lasthead := t_lasthead t |}.
 Definition excuse (r : oprec) : oprec :=
-  {| o_kind := o_kind r; o_val := o_val r; o_lp := o_lp r; o_got := o_got r; o_excuse := true; o_lenmin := o_lenmin r |}.
+  {| o_kind := o_kind r; o_val := o_val r; o_lp := o_lp r; o_got := o_got r; o_excuse := true; o_lenmin := o_lenmin r;
+     o_wait := o_wait r; o_left := o_left r |}.
 Definition excuse_all (t : tstate) : tstate := match t_cur t with Some r => with_cur t (Some (excuse r)) | None => t end.
 (* an in-flight Pop that sees the FIFO empty has its excuse *)
 Definition look (q : list Z) (t : tstate) : tstate :=
@@ -124,13 +160,24 @@ Definition j_start (progs : list (list Z)) (s : jstate) (i : nat) : jstate :=
   match nth_error (j_ths s) i with
   | None => bad s
   | Some t0 =>
+      (* a start marker while a PopWait has neither succeeded nor used up its tries is the next attempt of the same call *)
+      if match t_cur t0 with Some r => o_wait r && negb (o_lp r) && negb (o_left r =? 0) | None => false end then
+        match t_cur t0 with
+        | Some r =>
+            let r' := {| o_kind := 2; o_val := 0; o_lp := false; o_got := 0; o_excuse := o_excuse r; o_lenmin := 0;
+                         o_wait := true; o_left := if o_left r <? 0 then -1 else o_left r - 1 |} in
+            {| j_q := j_q s; j_ths := map (look (j_q s)) (updl (j_ths s) i (with_cur t0 (Some r'))); j_ok := j_ok s |}
+        | None => s
+        end
+      else
       let t := finish t0 in
       match nth_error (nth i progs []) (t_next t) with
       | None => bad s
       | Some o =>
           let others := existsb in_flight (updl (j_ths s) i t) in
-          let r := {| o_kind := if o =? 0 then 2 else if o <? 0 then 3 else 1; o_val := o; o_lp := false; o_got := 0;
-                      o_excuse := others; o_lenmin := 0 |} in
+          let wait := (o =? -10) || (o <=? -100) in
+          let r := {| o_kind := if (o =? 0) || wait then 2 else if o <? 0 then 3 else 1; o_val := o; o_lp := false; o_got := 0;
+                      o_excuse := others; o_lenmin := 0; o_wait := wait; o_left := if o <=? -100 then - o - 100 else -1 |} in
           let t' := {| t_next := S (t_next t); t_cur := Some r; t_done := t_done t; t_lasthead := -1 |} in
           let ths := updl (j_ths s) i t' in
           let ths := if others then map excuse_all ths else ths in
@@ -147,17 +194,17 @@ Definition j_event (s : jstate) (i : nat) (ek loc a b res : Z) : jstate :=
       | None => bad s
       | Some r =>
           if (ek =? EvStorePtr) && (loc =? LocTail) then        (* LP of Push *)
-            set_rec s i t {| o_kind := o_kind r; o_val := o_val r; o_lp := true; o_got := 0; o_excuse := o_excuse r; o_lenmin := 0 |}
+            set_rec s i t {| o_kind := o_kind r; o_val := o_val r; o_lp := true; o_got := 0; o_excuse := o_excuse r; o_lenmin := 0; o_wait := o_wait r; o_left := o_left r |}
                     (j_q s ++ [o_val r]) ((o_kind r =? 1) && negb (o_lp r))
           else if (ek =? EvCasPtr) && (loc =? LocHead) && (res =? 1) then   (* LP of Pop *)
             match j_q s with
             | [] => bad s
-            | x :: q' => set_rec s i t {| o_kind := o_kind r; o_val := 0; o_lp := true; o_got := x; o_excuse := o_excuse r; o_lenmin := 0 |}
+            | x :: q' => set_rec s i t {| o_kind := o_kind r; o_val := 0; o_lp := true; o_got := x; o_excuse := o_excuse r; o_lenmin := 0; o_wait := o_wait r; o_left := o_left r |}
                                  q' ((o_kind r =? 2) && negb (o_lp r))
             end
           else if (ek =? EvLoadI64) && (loc =? LocLen) then      (* Len: remember how many values were poppable *)
             set_rec s i t {| o_kind := o_kind r; o_val := o_val r; o_lp := true; o_got := res; o_excuse := o_excuse r;
-                             o_lenmin := Z.of_nat (length (j_q s)) |} (j_q s) (o_kind r =? 3)
+                             o_lenmin := Z.of_nat (length (j_q s)); o_wait := false; o_left := 0 |} (j_q s) (o_kind r =? 3)
           else {| j_q := j_q s; j_ths := map (look (j_q s)) (j_ths s); j_ok := j_ok s |}
       end
   end.
@@ -191,7 +238,7 @@ Fixpoint check_results (recs : list oprec) (res : list Z) : bool :=
   | [], [] => true
   | r :: recs', 1 :: res' => (o_kind r =? 1) && o_lp r && check_results recs' res'
   | r :: recs', 2 :: ok :: v :: res' =>
-      (o_kind r =? 2) && Bool.eqb (negb (ok =? 0)) (o_lp r) && (if o_lp r then v =? o_got r else (v =? 0) && o_excuse r)
+      (o_kind r =? 2) && Bool.eqb (negb (ok =? 0)) (o_lp r) && (if o_lp r then v =? o_got r else (v =? 0) && (o_excuse r || o_wait r))
       && check_results recs' res'
   | r :: recs', 3 :: z :: res' => (o_kind r =? 3) && (z =? o_got r) && (0 <=? z) && (o_lenmin r <=? z) && check_results recs' res'
   | _, _ => false
